@@ -116,6 +116,7 @@ def job(g, fn, tier, rows=None):
                         (res.add(name, v) if v.status == "holds" else bad.append((name, v)))
         if bad:
             w = native_witness(h, t, g, fn, sampler, left, inv)
+            symv = [v.status == "violated" for _, v in bad]
             for name, v in bad:
                 if w is not None:
                     v.status = "violated"
@@ -123,14 +124,20 @@ def job(g, fn, tier, rows=None):
                 else:
                     res.add_raw(name, "undecided", v.how + " ; not reproduced natively", v.dt)
             if w is not None:
-                res.violations.append({"key": key, "what": "%s: %s" % (key, w["what"]), "replay": w})
+                # key by how it was found: a symbolic verdict 'violated' (formula wrong) vs. only the native replay missing the tolerance
+                sym = any(v.status == "violated" and "not reproduced" not in v.how and "budget" not in v.how and v.how.startswith("z3") for _, v in bad)
+                rot = max([abs(w["inputs"][do + i]) for blk, ro, do, mo in O.group_blocks(g) for i in blk.rot] + [0.0])
+                region = "rotnorm<1e-2" if rot < 1e-2 else "generic"
+                vkey = "%s/%s" % (key, "formula" if sym else "native-precision/" + region)
+                if not any(x["key"] == vkey for x in res.violations):
+                    res.violations.append({"key": vkey, "what": "%s: %s" % (vkey, w["what"]), "replay": w})
     if not nok:
         res.errors.append(key + ": vacuous")
     res.axioms.add("d2r_exp block i (j,k) = d/da_k J_ij; d2r_expinv via J D_k J = -dJ/da_k (J = C04 oracle)")
     return res
 
 
-def native_witness(h, t, g, fn, sampler, left, inv, ntry=8):
+def native_witness(h, t, g, fn, sampler, left, inv, ntry=3):
     mp = check.mpmath()
     n = g.dof
     for k in range(ntry):
@@ -304,6 +311,7 @@ def _compile(g):
 
 def main(tier):
     run = check.Run(PID, tier)
+    check.JOB_BUDGET[0] = 240 if tier == 'quick' else 3000
     B = G.BASIC
     groups = [B["SO2"], B["SO3"], B["SE2"], B["C1"]] + ([B["SE3"], G.Bundle([B["SO3"], G.Tn(3)])] if tier == "thorough" else [])
     check.run_jobs([(_compile, (g,)) for g in groups + ([B["SE3"]] if tier == "quick" else [])])
